@@ -35,6 +35,8 @@ POOL = pd.DataFrame({
     "a b": [3.0, 1.0, 4.0, 1.5, 9.0],
     "a+b": [10.0, 20.0, 30.0, 20.0, 50.0],
     "a_b": [5.0, 6.0, 7.0, 9.0, 2.0],
+    # a text column whose NAME contains the interaction operator (its factor prints back-quoted)
+    "s:t": pd.Series(["x", "y", "x", "z", "y"], dtype=object),
 })
 
 FORMULAS = [
@@ -54,6 +56,8 @@ FORMULAS = [
     # the same stateful call more than once inside one factor / across factors
     # back-quoted names whose python aliases collide with each other / with another column: each keeps its own recorded state
     "center(`a b`) + center(`a+b`)", "center(`a b`) + center(a_b)", "scale(`a+b`):center(`a b`)", "{center(`a b`) - center(`a+b`)}",
+    # categorical factors whose expression contains ':' (a column name; a dict literal of custom contrasts)
+    "`s:t` + a", "a:`s:t`", "C(A, {'p': [1, 0, -1], 'q': [0, 1, -1]}) + a",
     "{center(a) * center(a)}", "I(scale(a) + scale(a))", "{center(a) * center(b)} + center(a)", "{bs(a, df=4)[1] + bs(a, df=4)[2]}",
 ]
 
@@ -78,7 +82,7 @@ def domain_rows(train_idx, formula):
     for i in range(len(POOL)):
         if not (lo <= POOL["a"][i] <= hi):
             continue
-        if "A" in formula and POOL["A"][i] not in levels:
+        if ("A" in formula or "s:t" in formula) and POOL["A"][i] not in levels:
             continue
         rows.append(i)
     return rows
@@ -144,8 +148,14 @@ def drv_rows(c, ctx, col):
         col.violation(key, dict(detail, got=G.tolist(), want=want.tolist()), sig="not-row-local")
         return
     # the training data reproduce the original matrix
-    again = dense(apply_spec(spec, tr, via))
-    if not np.allclose(again, dense(mm), rtol=1e-10, atol=1e-12, equal_nan=True):
+    try:
+        with warnings.catch_warnings():
+            warnings.simplefilter("ignore")
+            again = dense(apply_spec(spec, tr, via))
+    except Exception as e:  # noqa
+        col.violation(key, dict(detail, error="%s: %s" % (type(e).__name__, str(e)[:300])), sig="training-replay-raised:" + type(e).__name__)
+        return
+    if again.shape != dense(mm).shape or not np.allclose(again, dense(mm), rtol=1e-10, atol=1e-12, equal_nan=True):
         col.violation(key, dict(detail, original=dense(mm).tolist(), regenerated=again.tolist()), sig="training-matrix-not-reproduced")
         return
     if digest(spec_state(spec)) != d0:
@@ -263,8 +273,12 @@ def drv_hist(c, ctx, col):
             if digest(spec_state(spec)) != d0:
                 col.violation(key, dict(detail, step=step), sig="hist:original-spec-state-changed")
                 return
-        final = dense(cur.get_model_matrix(tr))
-        if not np.allclose(final, dense(mm), rtol=1e-10, atol=1e-12, equal_nan=True):
+        try:
+            final = dense(cur.get_model_matrix(tr))
+        except Exception as e:  # noqa
+            col.violation(key, dict(detail, error="%s: %s" % (type(e).__name__, str(e)[:300])), sig="hist:training-replay-raised:" + type(e).__name__)
+            return
+        if final.shape != dense(mm).shape or not np.allclose(final, dense(mm), rtol=1e-10, atol=1e-12, equal_nan=True):
             col.violation(key, dict(detail, original=dense(mm).tolist(), regenerated=final.tolist()), sig="hist:training-matrix-not-reproduced")
     col.interesting()
     col.sample(detail)
